@@ -153,6 +153,8 @@ def corpus_faults():
             if not m or l.startswith(';'):
                 continue
             mn = m.group(2).lower()
+            if mn in ('while', 'rept', 'irp', 'irpc', 'irpn', 'macro', 'if', 'include', 'binclude', 'end'):
+                continue     # constructs whose operand controls repetition / file access: excluded from operand mutation
             if mn in seen or len(seen) > 400:
                 continue
             seen.add(mn)
@@ -232,7 +234,10 @@ def finish(run_fn, first, okset, desc, group):
         o = o._replace(rc=-1)   # output hit the file-size cap: work proportional to the described image, not a violation
         return core.R(True, 'fsize-cap', nontrivial=False)
     if o.rc not in okset:
-        return core.R(False, 'status', '%s/status-%s' % (group, o.rc), 'undocumented exit status %s on %s' % (o.rc, desc))
+        last = [l for l in (o.err + o.out).decode('latin-1').strip().split('\n') if l.strip()][-1:] or ['']
+        slug = re.sub(r"'[^']*'", '', last[0])
+        slug = re.sub(r'[^A-Za-z]+', '-', slug).strip('-')[:40]
+        return core.R(False, 'status', '%s/status-%s/%s' % (group, o.rc, slug), 'undocumented exit status %s (%s) on %s' % (o.rc, last[0][:80], desc))
     return None
 
 
